@@ -302,7 +302,43 @@ def run(ctx):
                                       f'libfs hides data when FIEMAP answers in short pages of {cap}: byte {nz} of {os.path.basename(pth)} is data outside every reported range')
                 else:
                     ctx.violation(f'fiemap-short-{cap}-err.json', dict(impl=a), f'map_extents failed when FIEMAP answers in short pages of {cap}: {a[:100]}', no_input=True)
-    ctx.cov['rule'] = ('(files: + layouts of 2048..2100 (thorough 6500) extents; + data beyond 4 GiB; + every lseek of a segment search failing with EINVAL/EIO; + FIEMAP interrupted or answered in short non-final pages through an LD_PRELOAD shim) merge: exhaustive well-formed lists over a small offset universe + random lists (long, shared flags, malformed, near u64::MAX); '
+        # (5) a file system with blocks SMALLER than a page (ext4 with 1 KiB blocks, loop-mounted): data runs and holes of 1 KiB inside
+        # one 4 KiB page — the segment search must report every data run
+        img, mnt = f'{d}/small.img', f'{d}/mnt1k'
+        os.makedirs(mnt, exist_ok=True)
+        mounted = False
+        try:
+            with open(img, 'wb') as fh:
+                fh.truncate(24 << 20)
+            ok = subprocess.run(['mke2fs', '-q', '-F', '-t', 'ext4', '-b', '1024', img], capture_output=True).returncode == 0
+            ok = ok and subprocess.run(['mount', '-o', 'loop', img, mnt], capture_output=True).returncode == 0
+            mounted = ok
+            if not ok:
+                ctx.count('small_block_fs.skipped'); ctx.assumptions.append('no loop mount available: 1 KiB-block file system not exercised')
+            else:
+                for j in range(4 if ctx.quick else 20):
+                    p1 = f'{mnt}/f{j}'
+                    segs1 = []
+                    pos = rng.choice([0, 1024, 3072])
+                    for _ in range(rng.randint(3, 12)):
+                        ln = rng.choice([1, 1, 2, 3]) * 1024
+                        segs1.append((pos, pos + ln)); pos += ln + rng.choice([1, 1, 2, 5, 200]) * 1024
+                    if j == 0:
+                        segs1 = [(0, 1024), (2048, 3072), (7168, 8192), (206848, 207872)]; pos = 300000
+                    fsutil.make_file(p1, pos + 100, segs1, seed=500 + j)
+                    for what in ('file-segments', 'file-extents'):
+                        a = core.ask(probe, [f'{what} {p1}'])[0]
+                        ctx.count(f'small_block_fs.{what}.' + a.split()[0]); ctx.case(('small-block-fs', j, what), True)
+                        if a.startswith('ok'):
+                            rs = [tuple(int(v) for v in t.split('-')) for t in a.split()[1:]] if what == 'file-segments' else [(x, y) for x, y, _ in parse(a)]
+                            nz = fsutil.nonzero_outside(p1, rs)
+                            if nz is not None:
+                                ctx.violation(f'small-block-{j}-{what}.json', dict(kind=what, block_size=1024, segments=segs1, impl=a[:300]),
+                                              f'libfs hides data on a 1 KiB-block file system ({what}): byte {nz} is data outside every reported range (layout {segs1[:4]}…)')
+        finally:
+            if mounted:
+                subprocess.run(['umount', mnt], capture_output=True)
+    ctx.cov['rule'] = ('(files: + layouts of 2048..2100 (thorough 6500) extents; + data beyond 4 GiB; + every lseek of a segment search failing with EINVAL/EIO; + FIEMAP interrupted or answered in short non-final pages through an LD_PRELOAD shim; + a loop-mounted ext4 with 1 KiB blocks) merge: exhaustive well-formed lists over a small offset universe + random lists (long, shared flags, malformed, near u64::MAX); '
                        'files: fixed boundary layouts (0, 1, 32, 33, 64, 70 extents; data at start/end; odd sizes) + random layouts on ext4. '
                        'distinct = distinct input; non-trivial = at least two extents (merge) / at least one data segment (files)')
 
